@@ -257,6 +257,8 @@ def judge(g, pos, cfg, out):
             is_it = c is out["exc_obj"] or (isinstance(c, hp.InjectedFailure) and c.args and c.args[0] == f"{pos['who']}@{pos['at']}")
             if not is_it:
                 kind = "timeout-instead" if "Timeout" in type(c).__name__ else "wrong-exception"
+                if "saver already closed" in str(c) and c.__context__ is out["exc_obj"]:
+                    kind = "masked-by-saver-already-closed"
                 v.append((kind, f"fault at {st}:{pos.get('who')}@{pos.get('at')}: caller received {type(c).__name__}: {str(c)[:200]} "
                                 f"(context: {type(c.__context__).__name__ if c.__context__ else None})"))
     return v
